@@ -65,20 +65,21 @@ func matchKnown(known []KnownFinding, v *Violation) {
 // ---- replay files -----------------------------------------------------------
 
 type ReplayFile struct {
-	Property string      `json:"property"`
-	Clause   string      `json:"clause"`
-	Sig      string      `json:"sig,omitempty"`
-	Msg      string      `json:"violation"`
-	Seed     int64       `json:"seed"`
-	Tier     string      `json:"tier"`
-	Crash    bool        `json:"crash,omitempty"` // a repo goroutine panicked: replay = regenerate from seed in a subprocess
-	Scenario *Scenario   `json:"scenario,omitempty"`
-	Schedule []Decision  `json:"schedule"`
-	Default  string      `json:"schedule_default"`
-	OrigOps  int         `json:"original_ops"`
-	OrigDec  int         `json:"original_decisions"`
-	MinRuns  int         `json:"minimisation_runs"`
-	Tree     string      `json:"tree,omitempty"`
+	Property string     `json:"property"`
+	Clause   string     `json:"clause"`
+	Sig      string     `json:"sig,omitempty"`
+	Msg      string     `json:"violation"`
+	Seed     int64      `json:"seed"`
+	Tier     string     `json:"tier"`
+	Auto     bool       `json:"auto,omitempty"`  // found by (and replayable only with) the build that yields at every lock acquisition
+	Crash    bool       `json:"crash,omitempty"` // a repo goroutine panicked: replay = regenerate from seed in a subprocess
+	Scenario *Scenario  `json:"scenario,omitempty"`
+	Schedule []Decision `json:"schedule"`
+	Default  string     `json:"schedule_default"`
+	OrigOps  int        `json:"original_ops"`
+	OrigDec  int        `json:"original_decisions"`
+	MinRuns  int        `json:"minimisation_runs"`
+	Tree     string     `json:"tree,omitempty"`
 }
 
 func countOps(sc *Scenario) int {
@@ -156,6 +157,7 @@ func TestWorker(t *testing.T) {
 		b, _ := json.Marshal(v)
 		f.Write(append(b, '\n'))
 	}
+	Heartbeat = func() { f.Write([]byte("{\"hb\":1}\n")) }
 	sum := summaryLine{Summary: true, Probes: map[string]int{}, Switches: map[string]int{}}
 	allHash := map[string]bool{}
 	ntHash := map[string]bool{}
@@ -308,7 +310,7 @@ func writeReplay(t *testing.T, dir string, sc *Scenario, r *RunResult, v Violati
 	}
 	rf := ReplayFile{Property: v.Prop, Clause: v.Clause, Sig: v.Sig, Msg: msg, Seed: sc.Seed, Tier: tier, Scenario: msc, Schedule: mtrace,
 		Default: "after the listed decisions (or when a listed task is not parked): lowest-named parked task; time advances only when nothing is parked",
-		OrigOps: countOps(sc), OrigDec: len(r.Trace), MinRuns: tried, Tree: os.Getenv("VERIF_TREE")}
+		OrigOps: countOps(sc), OrigDec: len(r.Trace), MinRuns: tried, Tree: os.Getenv("VERIF_TREE"), Auto: AutoYield}
 	os.MkdirAll(dir, 0o755)
 	path := filepath.Join(dir, fmt.Sprintf("%s-%d.json", v.Prop, sc.Seed))
 	b, _ := json.MarshalIndent(rf, "", " ")
